@@ -624,7 +624,13 @@ class Array(metaclass=MetaArray):
             ll = len(value)
             shape = get_shape_from_array(value, len(self._shape))
             fits = tuple(shape) == tuple(self._shape)
-        if fits:
+        if fits and hasattr(self, "_offsets") and not is_integer(value):
+            # dynamically sized items: update them in place, one by one, so
+            # that the size of the array, the position of its items and the
+            # space reserved for each of them stay as fixed at creation
+            for index in self._iter_index():
+                self[index] = get_item(value, index)
+        elif fits:
             info = self.__class__._inspect_args(value)
             if info.size > self._get_size():  # size is fixed at creation
                 raise ValueError(
